@@ -125,6 +125,20 @@ def catalogue(tier):
         out.append((f"staircase-piezo:{keys[0]}:78", cols, k))
     except BaseException:
         pass
+    # a curve that lacks one of the height-like columns (no piezo height, as
+    # in simple csv formats): the others are smoothed all the same
+    try:
+        cols, k = synthetic(keys[0], 79, tilt=0.0, drift=0.0, lag=2,
+                            noise=1e-10, n_app=110, n_ret=55)
+        cols = {c: v for c, v in cols.items() if c != "height (piezo)"}
+        # (sensor noise beyond the sampling step: neither the height nor
+        # the tip position is monotone before smoothing)
+        hm = cols["height (measured)"]
+        cols["height (measured)"] = hm + 2.0 * abs(hm[1] - hm[0]) \
+            * np.random.default_rng(79).standard_normal(hm.size)
+        out.append((f"no-piezo-height:{keys[0]}:79", cols, k))
+    except BaseException:
+        pass
     recs = [("fmt-jpk-fd_spot3-0192.jpk-force", 12),
             ("fmt-jpk-fd_single_tilted-baseline-drift-"
              "mitotic_2021-01-29.jpk-force", 40)]
